@@ -48,6 +48,10 @@ type tconfig struct {
 	// byte) and resume; while it does not read, nothing the Transport wrote is seen or judged
 	Pause bool
 	NoRet bool // request bodies never end (keeps the alphabet of the pause configurations small)
+	// SrvMaxStreams: SETTINGS_MAX_CONCURRENT_STREAMS of the scripted server (0 = not sent). With fewer slots than
+	// MaxStreams a request waits inside the Transport until a slot is free; its response HEADERS are sent when its
+	// HEADERS appear on the wire.
+	SrvMaxStreams int
 }
 
 // one request of the application that uses the transport
@@ -80,6 +84,7 @@ type treq struct {
 	repGiven  int64
 	repDone   bool
 	repClosed bool
+	answered  bool // the scripted server has sent the response HEADERS
 }
 
 type ctlBody struct {
@@ -164,6 +169,9 @@ func newTWorld(cfg tconfig) *tworld {
 		panic(err)
 	}
 	w.tr = tr
+	// (without this a Transport does not wait for a stream slot on a full connection: it declares the connection
+	// unusable and would dial another one)
+	tr.StrictMaxConcurrentStreams = cfg.SrvMaxStreams > 0
 	cc, err := tr.NewClientConn(w.cl)
 	if err != nil {
 		panic(err)
@@ -294,6 +302,8 @@ func (w *tworld) handshake(iws int64) {
 	if mf := w.cfg.SrvMaxFrame; mf > 0 {
 		w.advMaxFrame = mf
 		w.send(h2wire.Settings(h2wire.Setting{ID: 4, Val: uint32(iws)}, h2wire.Setting{ID: 5, Val: uint32(mf)}))
+	} else if ms := w.cfg.SrvMaxStreams; ms > 0 {
+		w.send(h2wire.Settings(h2wire.Setting{ID: 4, Val: uint32(iws)}, h2wire.Setting{ID: 3, Val: uint32(ms)}))
 	} else {
 		w.send(h2wire.Settings(h2wire.Setting{ID: 4, Val: uint32(iws)}))
 	}
@@ -529,6 +539,7 @@ func (w *tworld) apply(a act) {
 		w.settle() // request HEADERS on the wire
 		if s := w.led.Streams[r.id]; s != nil && !w.led.Terminal() {
 			w.send(h2wire.Headers(r.id, w.enc.Block(h2wire.HF{":status", "200"}), false, true, nil, -1))
+			r.answered = true
 		}
 	case "W":
 		w.reqs[a.S].bodyCmd <- a.N
@@ -559,6 +570,24 @@ func (w *tworld) apply(a act) {
 		w.send(w.srvData(id, a.N, a.P, a.E))
 	default:
 		panic("unknown action " + a.K)
+	}
+}
+
+// answerAdmitted: a request that had to wait for a stream slot inside the Transport has put its HEADERS on the wire
+// now; the scripted server answers it like every other request.
+func (w *tworld) answerAdmitted() {
+	if w.cfg.SrvMaxStreams == 0 || w.paused {
+		return
+	}
+	for _, i := range w.ridx() {
+		r := w.reqs[i]
+		if !r.answered && i >= w.base {
+			if s := w.led.Streams[r.id]; s != nil && !w.led.Terminal() && len(w.viol) == 0 {
+				w.send(h2wire.Headers(r.id, w.enc.Block(h2wire.HF{":status", "200"}), false, true, nil, -1))
+				r.answered = true
+				w.settle()
+			}
+		}
 	}
 }
 
@@ -629,6 +658,7 @@ func trun(t *testing.T, cfg tconfig, seq []act, keepTrace bool) (res result) {
 				}
 				w.apply(a)
 				w.settle()
+				w.answerAdmitted()
 				if len(w.viol) > 0 {
 					break
 				}
